@@ -25,48 +25,50 @@ NOT_DECIDED = {
 # which engines a property uses
 USES_KANI = {'C01', 'C03', 'C10'}
 
-_V = 'Verus obligations (requires/ensures/invariants spliced into the extracted real functions) discharged by Z3'
+_TB = ('Trusted: contracts/preamble.rs (std items without vstd specs, derived Clone/PartialEq, String/Vec extensionality, Peekable laws), the abstract numeric '
+       'instance (its integer contracts are proved for i64 by Kani; float operations uninterpreted), user functions pure and non-panicking, 64-bit usize. '
+       'Every assumption of the run is listed in evidence.coverage.trusted_base; everything not decided in evidence.coverage.not_decided.')
 META = {
-    'C01': dict(engine='verus+kani', design_ref='5 C01', technique='contract-based deductive verification (Verus panic-freedom obligations; Kani on i64 leaves and builtins)',
-                text='Panic-freedom is the implicit obligation of every exec function Verus verifies (unwrap/unreachable/index/overflow are failed preconditions); leaves and builtins by Kani. Unbounded for the functions under contract.',
-                note='Trusted: preamble assume_specifications for std items, abstract numeric instance (contracts proved for i64 by Kani), user functions non-panicking, Display/Debug formatting and stack depth not modelled; functions outside the verified set are listed in evidence.'),
-    'C02': dict(engine='verus', design_ref='5 C02', technique='contract-based deductive verification (Verus): table contracts + insertion contract',
-                text='The precedence/arity/associativity tables are proved equal to the documented table for all 30 operators; token classification tables likewise.',
-                note='Whole-grammar uniqueness theorem not mechanised; tables and insertion contract only. Trusted preamble as in C01.'),
-    'C03': dict(engine='verus+kani', design_ref='5 C03', technique='contract-based deductive verification (Verus postcondition = reference semantics; Kani proves the i64 contracts)',
-                text='Operator::eval is proved to return exactly the reference semantics op_spec (written from the property text) for every operator and every argument list; integer contracts assumed on the abstract instance are proved for i64 by Kani over all operand pairs.',
-                note='IEEE operations are uninterpreted deterministic functions (routing/promotion/order proved, hardware arithmetic trusted); String ordering assumed lexicographic (std).'),
-    'C04': dict(engine='verus', design_ref='5 C04', technique='contract-based deductive verification (Verus abstract-map refinement)',
-                text='Every HashMapContext operation is proved to refine an abstract map view (whole-view postconditions); assignment arms of eval_mut proved against opmut_spec (x op= e == x = x op e).',
-                note='HashMap get/insert/get_mut/clear specs assumed (vstd + preamble); derive(Clone) and iter_variables not in reach (stated).'),
-    'C05': dict(engine='verus', design_ref='5 C05', technique='contract-based deductive verification (Verus)',
-                text='Tuple/Chain/RootNode evaluation arms proved against the reference semantics; sequence shape invariant of the tree builder where discharged.',
-                note='See evidence.not_decided for the tree-builder part.'),
-    'C06': dict(engine='verus+kani', design_ref='5 C06', technique='contract-based deductive verification (Verus lexical contract; Kani bounded string scanner)',
-                text='partial_tokens_to_tokens proved against the documented lexical rule for all inputs; string-literal scanner bounded by Kani.',
-                note='std number parsers trusted; bounded part labelled.'),
-    'C07': dict(engine='verus+kani', design_ref='5 C07', technique='contract-based deductive verification (Verus/Kani)',
-                text='Comment/whitespace separator contract on the stage-1 tokenizer.',
-                note='bounded part labelled.'),
-    'C08': dict(engine='verus', design_ref='5 C08', technique='contract-based deductive verification (Verus postcondition = reference interpreter)',
-                text='Both evaluators proved equal to one recursive left-to-right, first-error-wins reference interpreter threading the variable map.',
-                note='User functions assumed deterministic/pure: the ordered call log is not expressible (stated).'),
-    'C09': dict(engine='verus', design_ref='5 C09', technique='contract-based deductive verification (Verus)',
-                text='FunctionIdentifier arm proved against the resolution order (context first, builtins only on not-found and if enabled); builtin switch contracts on the three contexts.',
-                note='builtin_function is an assumed name->function table (its values are C10).'),
-    'C10': dict(engine='kani', design_ref='5 C10', technique='contract-based verification with Kani: full-domain loop-free harnesses per (builtin, argument shape) through the real dispatch',
-                text='i64 leaf contracts complete over all inputs; builtins per concrete shape with symbolic payloads.',
-                note='libm values trusted (routing proved with stubs); string payloads bounded (labelled).'),
-    'C11': dict(engine='verus', design_ref='5 C11', technique='contract-based deductive verification (Verus) + spec-level projection lemma',
-                text='Immutable evaluator proved equal to the reference interpreter in Immut mode with unchanged variables; default set_value proved to reject.',
-                note='as C08.'),
-    'C12': dict(engine='verus', design_ref='5 C12', technique='contract-based deductive verification (Verus projection contracts on all wrappers)',
-                text='Each typed entry point proved to return the projection of an admissible untyped result.',
-                note='tokenize/tree builder named by uninterpreted spec functions (determinism assumed for the string-level forms).'),
-    'C13': dict(engine='verus', design_ref='5 C13', technique='contract-based deductive verification (Verus)',
-                text='Arity check contract of Operator::eval (wrong-arity node never evaluates successfully); tree-builder contracts where discharged.',
-                note='see evidence.not_decided.'),
-    'C14': dict(engine='verus', design_ref='5 C14', technique='contract-based deductive verification (Verus abstract-view contract on NodeIter)',
-                text='NodeIter::next proved to yield the remaining pre-order.',
-                note='filter closures and OperatorIterMut not in reach (stated).'),
+    'C01': dict(engine='verus+kani', design_ref='0, 3.5, 6', technique='contract-based deductive verification: Verus panic-freedom/termination obligations on the real functions; Kani function proofs on the i64 leaves and builtin dispatch',
+                text='Panic-freedom and termination are obligations of every exec function Verus verifies (unwrap, unreachable!, indexing, str slicing, integer overflow are failed preconditions): operator evaluation, both evaluators and all wrappers, the tree builder (stack-shape invariant discharges both unreachable!()s), both tokenizer stages, the contexts, the explicit builtins, NodeIter. i64 leaves and macro-generated builtins by loop-free Kani harnesses over all payloads. Unbounded for the functions under contract.',
+                note=_TB + ' Not decided: Display/Debug formatting, stack depth, the identifier-filter closures, OperatorIterMut, IterateVariablesContext impls.'),
+    'C02': dict(engine='verus', design_ref='0, 4', technique='contract-based deductive verification (Verus): table contracts, insertion contract ins_ok/ins_post, token-mapping obligation, yield lemma',
+                text='Precedence/arity/associativity and token-class tables proved equal to the documented table; insert_back_prioritized proved to place each node exactly where precedence climbing puts it (free slot / rotation / descent by binds_into); the node created for each token proved to be op_of(token, previous-token-can-end-an-operand, next token); spec-level theorem: a successful insertion extends the in-order yield on the right.',
+                note=_TB + ' The whole-grammar uniqueness theorem (one tree per token sequence) is not mechanised; the per-step contracts are.'),
+    'C03': dict(engine='verus+kani', design_ref='0, 3.4', technique='contract-based deductive verification (Verus postcondition = reference semantics op_spec; Kani proves the integer contracts for i64)',
+                text='Operator::eval proved to return exactly op_spec (written from the property text; one ensures clause per operator) for every argument list; the integer contracts assumed on the abstract instance are proved for i64 by Kani over all 2^128 operand pairs.',
+                note=_TB + ' IEEE operations are uninterpreted deterministic functions (routing/promotion/operand order proved, hardware arithmetic trusted); String ordering assumed lexicographic; value of i64 % not proved (no installed back end terminates), value of i64 / only in the thorough tier.'),
+    'C04': dict(engine='verus', design_ref='0, 4', technique='contract-based deductive verification (Verus abstract-map refinement, whole-view postconditions)',
+                text='Every HashMapContext operation proved to refine an abstract map view with whole-view postconditions (set_spec: type-safe insert or unchanged); eval_mut proved against opmut_spec (x op= e is x = x op e, read after the right-hand side); both evaluators thread the map.',
+                note=_TB + ' HashMap get/insert/get_mut/clear specs assumed; derive(Clone) independence (ownership) and iter_variables not in reach.'),
+    'C05': dict(engine='verus', design_ref='0, 4', technique='contract-based deductive verification (Verus): evaluation arms + level-grammar stack invariant',
+                text='Tuple/Chain/RootNode arms proved against op_spec; the evaluators evaluate every element in order; the stack of open nodes is proved to follow the level grammar Root (Chain)? (Tuple)? with the last child of an open sequence being the root of the element being parsed.',
+                note=_TB + ' The closed-form shape theorem (flat tuple of all elements for every input) is not mechanised.'),
+    'C06': dict(engine='verus', design_ref='0, 4', technique='contract-based deductive verification (Verus, unbounded): lexer stages against lex2 / split / str_lit',
+                text='partial_tokens_to_tokens proved equal to the documented lexical rule lex2 for all inputs (int, float, bool, scientific join, identifier; longest match); parse_string_literal/parse_escape_sequence proved against str_lit; parse_dec_or_hex proved to choose hex after 0x; tokenize = lex2 after split.',
+                note=_TB + ' std number parsers, Display of partial tokens (scientific join text) and char::is_whitespace are uninterpreted.'),
+    'C07': dict(engine='verus', design_ref='0, 4', technique='contract-based deductive verification (Verus, unbounded): split / comment_skip',
+                text='str_to_partial_tokens proved equal to split: every whitespace character and every comment contributes one separator, string literals are taken before comment recognition; try_skip_comment proved against comment_skip (line_rest / block_rest).',
+                note=_TB + ' The quantified exchange-of-separators corollary over whole inputs is not mechanised.'),
+    'C08': dict(engine='verus', design_ref='0, 4', technique='contract-based deductive verification (Verus postcondition = reference interpreter run_imm / run_mut)',
+                text='Both evaluators proved equal to one recursive left-to-right, first-error-wins reference interpreter threading the variable map; op-assign reads after the right-hand side.',
+                note=_TB + ' The ordered log of user-function calls is not expressible (functions assumed pure).'),
+    'C09': dict(engine='verus', design_ref='0, 4', technique='contract-based deductive verification (Verus)',
+                text='FunctionIdentifier arm proved against call_resolution (context first, builtins only on not-found and if enabled); builtin-switch contracts on the three contexts; identifier classification (write / function / read by one token of lookahead) proved in the tree builder.',
+                note=_TB + ' builtin_function is an assumed name -> function table (its values are C10).'),
+    'C10': dict(engine='verus+kani', design_ref='0, 3.2 X17', technique='contract-based deductive verification: explicit builtin closures outlined mechanically and proved in Verus; macro-generated builtins and i64 leaves by Kani through the real dispatch',
+                text='abs, typeof, if, contains, contains_any, len, min, max (fold + meaning lemmas under IEEE order axioms), str::substring (same unit as len, errors when out of range / off a char boundary), str::* routing proved in Verus for tuples of any length; math/bit/shift builtins per concrete shape with fully symbolic payloads by Kani (libm replaced by tagged stubs: routing, argument order, promotion).',
+                note=_TB + ' libm values, std text transformations and Display of values trusted; 69 Kani error-path shapes not decided (CBMC cost).'),
+    'C11': dict(engine='verus', design_ref='0, 4', technique='contract-based deductive verification (Verus) + spec-level lemma lemma_c11',
+                text='Read-only evaluator proved equal to run_imm with the context untouched; lemma: run_imm is ContextNotMutable or agrees with run_mut which then left the variables unchanged, and they always agree without assignment operators; default set_value proved to reject (X11).',
+                note=_TB),
+    'C12': dict(engine='verus', design_ref='0, 4', technique='contract-based deductive verification (Verus projection contracts on all 45 entry points, generated)',
+                text='Each typed entry point proved to return the projection of an admissible untyped result (payload / matching expected-type error carrying the value / errors unchanged / number converts ints); context-free forms evaluate in a fresh HashMapContext; string forms are tokenize ; build ; evaluate.',
+                note=_TB + ' Equality of repeated evaluations holds up to type-error identity (norm).'),
+    'C13': dict(engine='verus', design_ref='0, 4', technique='contract-based deductive verification (Verus): insertion contract, parenthesis accounting, arity contract',
+                text='tokens_to_operator_tree proved: Ok implies balanced parentheses, UnmatchedLBrace/UnmatchedRBrace imply unbalanced (one root node on the stack per open level); insert_back_prioritized succeeds exactly when ins_ok (a free operand slot never takes a binary operator, only a binary operator adopts the preceding operand); Operator::eval rejects wrong arity.',
+                note=_TB),
+    'C14': dict(engine='verus', design_ref='0, 4', technique='contract-based deductive verification (Verus abstract-view contract on NodeIter)',
+                text='NodeIter::new / next proved to yield exactly the remaining pre-order of the children (abstract view over the stack of slice iterators).',
+                note=_TB + ' Filter closures, OperatorIterMut (all *_mut variants) and the renaming corollary are not in reach.'),
 }
